@@ -14,7 +14,7 @@ Strings are comma separated code points, `-` = empty string / absent.
       | srv run <srv> 0|1
   not reset | not register <lst> <a> | not oneshot <lst> <a> | not unregister <lst> | not notify
 -/
-import Sc3Verif.C18.Model
+import Sc3Verif.C18.Spec
 open Sc3Verif.C18
 open Sc3Verif.C06 (Bytes DVal)
 
@@ -171,6 +171,7 @@ def parseSysOp (toks : List String) : Option SysOp :=
 
 structure DState where
   st : St := St.init
+  ast : ASt := ASt.init
   sys : SysReg := []
   scripts : List (Nat × List SysOp) := []
   srv : SrvReg := []
@@ -192,7 +193,7 @@ def handle (ds : DState) (line : String) : DState × String :=
     match parseStr p with
     | some p => (ds, fmtStr (rewrite p))
     | none => (ds, "bad-op")
-  | ["reset"] => ({ ds with st := St.init }, "reset")
+  | ["reset"] => ({ ds with st := St.init, ast := ASt.init }, "reset")
   | "sys" :: rest =>
     match rest with
     | ["reset"] => ({ ds with sys := [], scripts := [] }, "reset")
@@ -253,7 +254,10 @@ def handle (ds : DState) (line : String) : DState × String :=
     match parseOp toks with
     | some op =>
       let (s', o) := step env0 ds.st op
-      ({ ds with st := s' }, fmtOut o)
+      let (a', oa) := astep env0 ds.ast op        -- the abstract specification, run side by side
+      let t := fmtOut o
+      let ta := fmtOut oa
+      ({ ds with st := s', ast := a' }, if t == ta then t else t ++ " SPEC-MISMATCH " ++ ta)
     | none => (ds, "bad-op")
 
 partial def loop (h : IO.FS.Stream) (out : IO.FS.Stream) (ds : DState) : IO Unit := do
